@@ -144,11 +144,13 @@ def numRel2 (m : NumMode) : JVal → JVal → Bool
       -- under UseNumber no float64 may remain under interface{}
       match m, tagOf a with
       | .number, some (102, _) => false
+      | .number, some (105, _) => false
       | _, _ => true
     else
       match tagOf a, tagOf b with
       | some (102, _), some (110, _) => m == .number
       | some (102, _), some (105, _) => m == .int64
+      | some (105, _), some (110, _) => m == .number      -- UseNumber on top of UseInt64: UseNumber wins
       | _, _ => false
   | .arr as, .arr bs => numRel2L m as bs
   | .obj as, .obj bs => numRel2M m as bs
@@ -187,6 +189,7 @@ def numRel3 (m : NumMode) : Nat → JVal → JVal → JVal → Bool
     | .num lit, .str a, .str b =>
       match tagOf a with
       | some (102, _) => b == numLeaf m lit a
+      | some (105, _) => m == .number && b == numLeaf m lit a
       | _ => false
     | .str s, .str a, .str b => a == b && a == 115 :: 58 :: hexBytes (unescape s)
     | .null, .null, .null => true
